@@ -534,6 +534,18 @@ class Flow:
                     cl = match_close(src, op)
                     hits.append((m.start(), norm(src[m.start():cl + 1]), split_top(src[op + 1:cl])))
                     spans.append((m.start(), cl, norm(src[m.start():cl + 1])))
+            # a binding declared with a path type: whatever it is built from (`.into()`, `.parse()?`, `From`, a formatted String)
+            # is a path construction — its provenance must be known like that of a sink argument
+            for m in re.finditer(r"\blet\s+(?:mut\s+)?(\w+)\s*:\s*&?\s*(?:mut\s+)?(?:std\s*::\s*path\s*::\s*)?(?:PathBuf|Path|OsString|OsStr)\b[^=;]*=", src):
+                j, depth = m.end(), 0
+                while j < len(src) and not (src[j] == ";" and depth == 0):
+                    if src[j] in "([{":
+                        depth += 1
+                    elif src[j] in ")]}":
+                        depth -= 1
+                    j += 1
+                hits.append((m.start(), norm(src[m.start():j]), [src[m.end():j]]))
+                spans.append((m.start(), j, norm(src[m.start():j])))
             for m in re.finditer(self.PROBES, src):
                 if re.search(r"\|\s*%s\s*\|\s*$" % re.escape(m.group(1)), src[:m.start()]):
                     # `|m| m.is_file()`: a Metadata, not a path — only as the closure of a combinator applied to fs::metadata(..)
